@@ -17,31 +17,31 @@ OUT = "histories longer than stated from the stated recipe states; block sizes o
 checks = {}
 checks["C01"] = {
  "level": "model_checking",
- "jobs": [job("Verif_C01_Linear", [0, 2, 3, 4, 5, 6, 7, 8], [0, 1, 2, 3, 4, 5, 6, 7, 8]), job("Verif_C01_TLSF", [0, 1, 20, 30], [0, 1, 2, 10, 11, 20, 21, 30])],
+ "jobs": [job("Verif_C01_Linear", [0, 2, 3, 4, 5, 6, 7, 8], [0, 1, 2, 3, 4, 5, 6, 7, 8]), job("Verif_C01_TLSF", [0, 1, 20, 30], [0, 1, 2, 20, 21, 30])],
  "bounds_quick": LIN_Q + "; " + LIN_RECIPES + " (quick: without the ring-buffer recipe; 2 operations after a recipe, 1 after compaction); " + TLSF_Q + "; TLSF one-hole recipe (100-byte hole at the unaligned offset 10 between live allocations) + 2 operations with symbolic alignment",
  "bounds_thorough": "as quick with 4 operations per history (3 after a recipe, 2 after compaction), block sizes 100 and 128 (linear) / 256, 320, 1000 (TLSF), ring-buffer recipe, TLSF recipe T(n<=4,F,pi) + 2 operations",
  "assumptions": BLOCK_ASSUME, "outside": OUT}
 checks["C03"] = {
  "level": "model_checking",
- "jobs": [job("Verif_C03_Linear", [0, 4, 5, 7, 8], [0, 1, 2, 3, 4, 5, 6, 7, 8]), job("Verif_C03_TLSF", [0, 1, 20], [0, 1, 2, 10, 11, 20, 21, 30])],
+ "jobs": [job("Verif_C03_Linear", [0, 4, 5, 7, 8], [0, 1, 3, 4, 5, 6, 7, 8]), job("Verif_C03_TLSF", [0, 1, 20], [0, 1, 2, 20, 21, 30])],
  "bounds_quick": LIN_Q + " and the compaction family with an upper stack + 1 operation; " + TLSF_Q.replace("256 and 320", "256") + ". After every operation: tiling of the enumerated regions, allocation count, free bytes, emptiness flag, Statistics, DetailedStatistics (min/max, unused ranges) against the harness' own live set, and Validate()==nil (Validate is executed symbolically as code under test).",
  "bounds_thorough": "as quick with 4 operations, all linear recipes, TLSF blocks 256/320 and recipe T(n<=4,F,pi)",
  "assumptions": BLOCK_ASSUME, "outside": OUT}
 checks["C05"] = {
  "level": "model_checking",
- "jobs": [job("Verif_C05_TLSF_Lemmas", list(range(15)), list(range(15))), job("Verif_C05_TLSF_Search", [10, 11, 32, 40], [0, 1, 10, 11, 22, 32, 40, 41])],
+ "jobs": [job("Verif_C05_TLSF_Lemmas", list(range(15)), list(range(15))), job("Verif_C05_TLSF_Search", [10, 11, 32, 40], [10, 11, 32, 40, 41])],
  "bounds_quick": "lemmas at full 64-bit width for 15 block sizes (1 .. 2^62+12345): list index and memory class monotone in the size, in range of the arrays sized by Init, next-list rounding only reaches fitting sizes; search: recipe T(2,F,pi) on 256/320-byte blocks (2 allocations, 0-2 frees in any order), then one request with symbolic size, alignment 2^0..2^6, strategy, optional symbolic offset bound, compared with an exhaustive scan of the region list; bucket-boundary recipe (light): 1000-byte block, two holes of symbolic size 129..256 separated by live allocations, symbolic trailing free space 0..128, request of symbolic size 129..256, every strategy; merge recipe: 256-byte block with three holes of 60, 50 and 40 bytes in one free list (freed in every order), 8 free bytes at the end, then two arbitrary operations (free of any live allocation, or allocation of a symbolic size) and the request under test",
  "bounds_thorough": "search additionally from T(n<=4,F,pi) and from the bucket-boundary recipe on a 1000-byte block (two holes of symbolic size 1..300, symbolic trailing free space 0..200, request size symbolic, every strategy): covers every combination of free-list buckets of hole and request sizes",
  "assumptions": BLOCK_ASSUME + ["granularity rules in force: none (null handler); the granularity-aware variant is part of C09's harness"], "outside": OUT}
 checks["C06"] = {
  "level": "model_checking",
- "jobs": [job("Verif_C06_Linear", [0, 3, 5, 7, 8], [0, 1, 2, 3, 4, 5, 6, 7, 8]), job("Verif_C06_TLSF", [0, 1, 20], [0, 1, 10, 11, 20, 21])],
+ "jobs": [job("Verif_C06_Linear", [0, 3, 5, 7, 8], [0, 1, 2, 3, 4, 5, 6, 7, 8]), job("Verif_C06_TLSF", [0, 1, 20], [0, 1, 20, 21])],
  "bounds_quick": LIN_Q + ", double-stack recipe and compaction family; " + TLSF_Q + "; after the history every remaining allocation is freed in ascending or descending order of age",
  "bounds_thorough": "all linear recipes, 4 operations, TLSF recipes",
  "assumptions": BLOCK_ASSUME, "outside": OUT}
 checks["C13"] = {
  "level": "model_checking",
- "jobs": [job("Verif_C13_Linear", [0, 3, 4, 7, 8], [0, 1, 2, 3, 4, 5, 6, 7, 8]), job("Verif_C13_TLSF", [0, 1, 20], [0, 1, 2, 10, 20])],
+ "jobs": [job("Verif_C13_Linear", [0, 3, 4, 7, 8], [0, 1, 2, 3, 4, 5, 6, 7, 8]), job("Verif_C13_TLSF", [0, 1, 20], [0, 1, 2, 20])],
  "bounds_quick": LIN_Q + " + recipes L2(2,2), L1(4) with 2 operations; " + TLSF_Q + "; every call runs inside a panic catcher; a refusal must leave all observables unchanged. Block level only (the allocator-level clauses are checked by the vam harnesses).",
  "bounds_thorough": "all recipes, 4 operations",
  "assumptions": BLOCK_ASSUME, "outside": OUT + "; stale handles; alignment 0"}
@@ -53,13 +53,13 @@ checks["C16"] = {
  "assumptions": BLOCK_ASSUME + ["granularity 1: no conflict relation in force (granularity bumps are checked against the page rule by C09)"], "outside": OUT}
 checks["C17"] = {
  "level": "model_checking",
- "jobs": [job("Verif_C17_Linear", [0, 3, 4, 7, 8], [0, 1, 2, 3, 4, 5, 6, 7, 8]), job("Verif_C17_TLSF", [0, 1, 20], [0, 1, 10, 20])],
+ "jobs": [job("Verif_C17_Linear", [0, 3, 4, 7, 8], [0, 1, 2, 3, 4, 5, 6, 7, 8]), job("Verif_C17_TLSF", [0, 1, 20], [0, 1, 20, 21])],
  "bounds_quick": LIN_Q + " + recipes L2(2,2), L1(4); " + TLSF_Q + "; after every operation: user data and offset by handle for every live allocation, SetAllocationUserData on each allocation in turn, region visitor and (TLSF) list iteration visit every live allocation exactly once",
  "bounds_thorough": "all recipes, 4 operations",
  "assumptions": BLOCK_ASSUME, "outside": OUT}
 checks["C18"] = {
  "level": "model_checking",
- "jobs": [job("Verif_C18_Linear", [0, 7, 8], [0, 1, 2, 3, 4, 7, 8]), job("Verif_C18_TLSF", [0], [0, 1, 10, 20])],
+ "jobs": [job("Verif_C18_Linear", [0, 7, 8], [0, 1, 2, 3, 4, 7, 8]), job("Verif_C18_TLSF", [0], [0, 1, 20])],
  "bounds_quick": LIN_Q + "; " + TLSF_Q.replace("256 and 320", "256") + "; TLSF: no two adjacent free ranges after every operation; then everything is freed (either order) or the block is cleared, and the block is compared with a freshly initialised one: observables, internal state modulo documented symmetries, and 2 further symbolic requests answered in lock-step",
  "bounds_thorough": "4 operations, linear recipes, TLSF 320 bytes and recipe",
  "assumptions": BLOCK_ASSUME, "outside": OUT}
@@ -95,7 +95,7 @@ VAM_HIST = "all histories of 3 API calls (AllocateMemory in 4-6 flag/type varian
 VDEF = "defragmentation through the public API: custom TLSF pool with explicit 256-byte blocks (max 3), four allocations of symbolic sizes spilling into a second block (two optionally persistently mapped), one or two holes freed, full run of up to 3 passes (quick: every move copied; thorough: copy/ignore/destroy per pass, 5 allocations), both algorithms"
 
 checks["C02"] = {"level": "model_checking",
- "jobs": [vjob("Verif_C02_Hist", [0], [0, 1, 2, 32, 64]), vjob("Verif_C02_VDefrag", [0, 32, 192], [0, 32, 64, 96, 128, 192, 224])],
+ "jobs": [vjob("Verif_C02_Hist", [0], [0, 1, 2, 32, 64]), vjob("Verif_C02_VDefrag", [0, 32, 192], [0, 32, 128, 192, 224])],
  "bounds_quick": VAM_HIST + "; " + VDEF + ". After every call: memory object live on the device and of a permitted type, range inside the object, requested and pool-minimum alignment, pairwise disjoint within a memory object, dedicated allocations alone at offset 0.",
  "bounds_thorough": "4 calls; device variants granularity 1024 / atom 64; custom pools (4 variants incl. linear) and multi-allocations of 2",
  "assumptions": VAM_ASSUME, "outside": VAM_OUT}
@@ -104,7 +104,7 @@ checks["C04"] = {"level": "model_checking",
  "bounds_quick": VAM_HIST + "; " + VDEF + ". After every call CalculateStatistics (per type, per heap, total: block count/bytes, allocation count/bytes, min/max) and HeapBudget (statistics, usage) are compared with the simulated device's live objects and the harness' live set. Fault sequences: the multi-allocation operations of the C10 fault-injection harness are run for C04 as well (statistics after a part-way failure); the other operations see C10.",
  "bounds_thorough": "4 calls, pools, multi-allocations",
  "assumptions": VAM_ASSUME + ["memory-budget extension off (usage == block bytes)"], "outside": VAM_OUT + "; JSON rendering (BuildStatsString)"}
-checks["C07"]["jobs"].append(vjob("Verif_C07_VDefrag", [0, 32], [0, 32, 64, 96]))
+checks["C07"]["jobs"].append(vjob("Verif_C07_VDefrag", [0, 32], [0, 32, 128]))
 checks["C07"]["bounds_quick"] += " vam layer: " + VDEF
 checks["C07"]["assumptions"] = checks["C07"]["assumptions"] + VAM_ASSUME
 checks["C08"] = {"level": "model_checking",
@@ -127,7 +127,7 @@ checks["C11"] = {"level": "model_checking",
  "bounds_quick": VAM_HIST + " on devices with heap size limits {512,1024}, maxMemoryAllocationCount 2, and custom pools (min/max block counts); after every call: device bytes per heap <= limit, live memory objects <= count limit, pool block counts within [min,max], no AllocateMemory driver call during a never-allocate request, a dedicated request owns an object of exactly the requested size; two goroutines racing for the last bytes of a heap limit (all schedules with at most 2 pre-emptions)",
  "bounds_thorough": "4 calls, multi-allocations",
  "assumptions": VAM_ASSUME, "outside": VAM_OUT + "; the race clause is covered only in the reduced form of C12's schedule exploration: two goroutines, two dedicated requests of symbolic size racing for a 512-byte heap limit, at most two pre-emptions"}
-checks["C13"]["jobs"] += [vjob("Verif_C13_Hist", [0, 96], [0, 32, 64, 96])]
+checks["C13"]["jobs"] += [vjob("Verif_C13_Hist", [0, 96], [0, 32, 96])]
 checks["C13"]["bounds_quick"] += " Allocator level: " + VAM_HIST + " with every call inside a panic catcher; refusals compared with a snapshot of device objects, live allocations and counters; CreatePool with every memory type index in [-2,40]."
 checks["C13"]["assumptions"] = checks["C13"]["assumptions"] + VAM_ASSUME
 checks["C14"] = {"level": "model_checking",
@@ -160,7 +160,7 @@ LEGEND = {
  "Linear": "linear cfg: 0 empty 100-byte block, 1 empty 128-byte block, 2 ring buffer L3(3,j,m), 3 double stack L2(2,2), 4 stack L1(4) with freed middle entries, 5/6 compaction family with/without an upper stack, 7 small ring L3(2,1,2), 8 ring L3(2,1,3) with one symbolic size",
  "TLSF": "TLSF cfg = 10*scenario + block: block 0/1/2/3 = 256/320/1000/4096 bytes; scenario 0 history from the empty block, 1 recipe T(n,F,pi), 2 three holes in one free list, 3 one hole at an unaligned offset (C05 search: 0/1 recipes T(3)/T(2), 2 bucket-boundary recipe, 3 its light variant, 4 merge recipe)",
  "Defrag": "planner cfg = algorithm (0 Fast, 1 Full) + 2*layout (0: one block, 1: two blocks, 2: three blocks) + 6*(symbolic per-pass limits)",
- "vam": "vam cfg: low 5 bits = device variant (1 granularity 1024, 2 nonCoherentAtomSize 64, 4 heap size limits, 8 maxMemoryAllocationCount 2, 16 excluded AMD device-coherent type); higher bits select the scenario of the entry (Hist: 32 custom pools, 64 multi-allocations, 96 pool index sweep; Faults: cfg/32 = operation 0..7; Maps: 32 non-coherent type, 64 flush focus, 128 odd-sized pool block, 256 hysteresis window-phase sweep; VDefrag: 32 Full algorithm, 64/128/192 layouts; Pages: cfg%2 linear, cfg/2%3 granularity 16/1024/4096, 6+ page-boundary recipe; Select: N=3+cfg%4 types, 4 integrated GPU, 8 AMD extension)",
+ "vam": "vam cfg: low 5 bits = device variant (1 granularity 1024, 2 nonCoherentAtomSize 64, 4 heap size limits, 8 maxMemoryAllocationCount 2, 16 excluded AMD device-coherent type); higher bits select the scenario of the entry (Hist: 32 custom pools, 64 multi-allocations, 96 pool index sweep; Faults: cfg/32 = operation 0..7; Maps: 32 non-coherent type, 64 flush focus, 128 odd-sized pool block, 256 hysteresis window-phase sweep; VDefrag: 32 Fast instead of Full algorithm, 64 five allocations, 128 mapped-neighbour layout, 192 pool with MinAllocationAlignment 32; Pages: cfg%2 linear, cfg/2%3 granularity 16/1024/4096, 6+ page-boundary recipe; Select: N=3+cfg%4 types, 4 integrated GPU, 8 AMD extension)",
 }
 def legend_for(entry):
     if "Linear" in entry: return "Linear"
